@@ -504,7 +504,24 @@ func (c *Ctx) chanClosed(s *State, ch Term) Term {
 	return Select(h, ch)
 }
 
+// blockingUnderLock: a goroutine must not block on a channel while it holds a levelled mutex
+// (the level argument for deadlock freedom covers mutexes only).
+func (c *Ctx) blockingUnderLock(s *State, in ssa.Instruction, what string) {
+	if c.scout > 0 {
+		return
+	}
+	held := ""
+	for _, l := range s.locks {
+		if l.Level != 0 {
+			held = l.Key
+		}
+	}
+	c.structural(held == "", "locklevel", fmt.Sprintf("%s/blocking-under-lock@%s#%d", fnKey(in.Parent()), otag(in), c.ordinal("chan", in)), posOf(c.eng.prog, in),
+		"blocking "+what+" while holding "+held, []string{"C13"})
+}
+
 func (c *Ctx) execSend(s *State, x *ssa.Send) {
+	c.blockingUnderLock(s, x, "channel send")
 	ch := c.val(s, x.Chan).(Sc).T
 	v := c.val(s, x.X)
 	pos := posOf(c.eng.prog, x)
@@ -518,6 +535,7 @@ func (c *Ctx) execSend(s *State, x *ssa.Send) {
 }
 
 func (c *Ctx) execRecv(s *State, x *ssa.UnOp) {
+	c.blockingUnderLock(s, x, "channel receive")
 	ch := c.val(s, x.X).(Sc).T
 	pos := posOf(c.eng.prog, x)
 	s.assume(Neq(ch, IntLit(0))) // nil channel blocks forever
@@ -540,6 +558,9 @@ func (c *Ctx) execRecv(s *State, x *ssa.UnOp) {
 
 // execSelect: may-semantics. Every case whose channel is non-nil is a possible branch.
 func (c *Ctx) execSelect(s *State, x *ssa.Select) []*State {
+	if x.Blocking {
+		c.blockingUnderLock(s, x, "select")
+	}
 	pos := posOf(c.eng.prog, x)
 	type branch struct {
 		idx int
